@@ -223,6 +223,9 @@ m("C19-g", "C19", "libwallet/src/internal/updater.rs", "\t\t\t\t\t\t\t\t|| tx_en
 m("C19-h", "C19", "libwallet/src/internal/updater.rs", "\t\t\t\tf_pk && f_tx_id && f_txs && f_outstanding", "\t\t\t\tf_pk && (f_tx_id || f_txs) && f_outstanding", "C19.R4")
 m("C19-i", "C19", "libwallet/src/internal/updater.rs", "\t\t\t\t\tSome(t) => tx_entry.tx_slate_id == Some(t),\n\t\t\t\t\tNone => true,", "\t\t\t\t\tSome(t) => tx_entry.tx_slate_id == Some(t),\n\t\t\t\t\tNone => tx_entry.tx_slate_id.is_none(),", "C19.R4")
 
+m("C09-f", "C09", "libwallet/src/slatepack/types.rs", "\t\twhile bytes_to_payload > 0 {\n\t\t\tlet _ = reader.read_u8()?;", "\t\twhile bytes_to_payload > 0 {\n\t\t\tlet _ = reader.read_u8();", "C09.R2")
+m("C13-g", "C13", "api/src/owner_rpc.rs", "\t\tlet sec_key = SecretKey::new(&secp, &mut thread_rng());\n\n\t\tlet mut shared_pubkey = ecdh_pubkey.ecdh_pubkey;", "\t\tlet sec_key = SecretKey::from_slice(&secp, &[7u8; 32]).map_err(Error::Secp)?;\n\n\t\tlet mut shared_pubkey = ecdh_pubkey.ecdh_pubkey;", "C13.R4")
+
 
 def for_property(prop):
     return [x for x in M if x["property"] == prop]
